@@ -333,23 +333,33 @@ def check_bound(acc, skind, stoks, ctoks, mtoks, overwrite, ignore_master, selna
         acc.violation("%s:child-wrong:%s" % (tag, "overwrite" if overwrite else "no-overwrite"),
                       dict(case, expected=cexp, got=c_after))
         return
+    try:
+        upd, conf = ret
+        upd, conf = dict(upd), _norm_conf(conf)
+    except Exception:  # noqa
+        acc.violation("%s:malformed-return" % tag, dict(case, returned=repr(ret)))
+        return
+    if (not ignore_master and m_after == master and upd == cupd and conf == cconf
+            and (mexp != master or set(mupd) - set(cupd) or mconf - cconf)):
+        # exactly the behaviour of a merge that never consulted the master
+        acc.violation("%s:master-not-updated" % tag, dict(case, expected_master=mexp, got_master=m_after,
+                                                          returned=repr(ret)))
+        return
     if m_after != mexp:
-        what = ("modified-despite-ignore_master" if ignore_master else
-                "not-updated" if m_after == master else "wrong")
+        what = "modified-despite-ignore_master" if ignore_master else "wrong"
         acc.violation("%s:master-%s" % (tag, what), dict(case, expected=mexp, got=m_after))
         return
     if w.read_raw(skind, "src") != src:
         acc.violation("%s:source-changed" % tag, case)
         return
-    upd, conf = ret
     eupd = dict(cupd)
     eupd.update(mupd)
     econf = cconf | mconf
-    if dict(upd) != eupd:
-        acc.violation("%s:wrong-updates" % tag, dict(case, expected=eupd, got=dict(upd)))
+    if upd != eupd:
+        acc.violation("%s:wrong-updates" % tag, dict(case, expected=eupd, got=upd))
         return
-    if _norm_conf(conf) != econf:
-        acc.violation("%s:wrong-conflicts" % tag, dict(case, expected=sorted(econf), got=sorted(_norm_conf(conf))))
+    if conf != econf:
+        acc.violation("%s:wrong-conflicts" % tag, dict(case, expected=sorted(econf), got=sorted(conf)))
         return
     acc.outcomes.add((tag, len(eupd), len(econf), ignore_master))
 
